@@ -262,7 +262,7 @@ pub struct Checker<'a>
     fifo: HashMap<((u8, u32), Inst), u64>,
     gc_guaranteed_this_step: bool,
     in_direct_step: bool,
-    pub sys: crate::sysfam::SysModel,
+    pub sys: SysModel,
 }
 
 const OWN_C03: &[&str] = &["C03"];
@@ -1160,6 +1160,7 @@ impl<'a> Checker<'a>
         {
             fail!(self, "C13", "local-reset", &["C17"], "instance {inst}: run #{} sees Local={n} captured={cap}", self.insts[ti].runs);
         }
+        let n = self.insts[ti].runs;
         // per-sender FIFO (C12)
         // (only deliveries that carry a unique payload id are distinguishable; manual runs and trigger reactions of one
         // kind are interchangeable, so their relative order is not observable)
@@ -1169,7 +1170,7 @@ impl<'a> Checker<'a>
             let last = self.fifo.entry((d.sender, d.target)).or_insert(0);
             if d.seq < *last
             {
-                fail!(self, "C12", "fifo-violated", &["C03"], "instance {inst} processed {:?} after a delivery the same run sent later", d.cause);
+                fail!(self, "C12", "fifo-violated", &["C03", "C09"], "instance {inst} processed {:?} after a delivery the same run sent later", d.cause);
             }
             *last = d.seq;
         }
@@ -1186,7 +1187,7 @@ impl<'a> Checker<'a>
 
         let prog: &'a Program = self.prog;
         let def = &prog.insts[ti];
-        let excl = def.flavour == Flavour::Exclusive;
+        let excl = matches!(def.flavour, Flavour::Exclusive | Flavour::ExclusiveWarn);
         if excl { self.stats.excl_bodies += 1; }
         if let Origin::EntityWorld(k) = def.origin { self.ewr_local(inst, k, &d)?; }
         let mut held = d.holds;
@@ -1331,7 +1332,7 @@ impl<'a> Checker<'a>
         for (idx, op) in ops.iter().enumerate()
         {
             let u = uid(issuer, run, idx);
-            if excl && matches!(op, Op::Now(_) | Op::ReturnErr) { continue; }
+            if excl && matches!(op, Op::Now(_)) { continue; }
             if matches!(op, Op::ReturnErr) { return Ok((out, true)); }
             let is = self.issue(op, u, excl)?;
             out.push((u, is));
@@ -1441,7 +1442,12 @@ impl<'a> Checker<'a>
                 let sel = all.iter().enumerate().filter(|(i, _)| mask & (1 << i) != 0).map(|(_, t)| self.resolve(t)).collect();
                 Issued::EwrRemove(*k, slot(self, *s), *mask, sel)
             }
-            Op::CmdSyscall(kind, key, input) => Issued::CmdSyscall(*kind, *key, *input),
+            Op::CmdSyscall(kind, key, input) =>
+            {
+                // `Commands::spawned_syscall` needs the id, which the harness only has once the system was spawned
+                if matches!(kind, SysKind::Spawned) && self.sys.spawned[*key as usize % 4].is_none() { return Ok(Issued::Nop); }
+                Issued::CmdSyscall(*kind, *key, *input)
+            }
         })
     }
 
@@ -1640,7 +1646,7 @@ impl<'a> Checker<'a>
                     if self.ents[e].alive && !self.ents[e].ereg.iter().any(|r| r.inst == i) { self.ents[e].ewr[k as usize] = None; }
                 }
             }
-            Issued::CmdSyscall(kind, key, input) => crate::sysfam::model_cmd_syscall(self, kind, key, input, u)?,
+            Issued::CmdSyscall(kind, key, input) => self.sys_call(kind, key, input, true, u)?,
         }
         Ok(())
     }
@@ -1731,9 +1737,9 @@ impl<'a> Checker<'a>
                 }
             }
             WOp::TakeStorage(_) => return Err(Stop::Bail(Bail("storage fault is not judged by the lock-step spec".into()))),
-            WOp::Syscall(kind, key, input) => crate::sysfam::model_world_syscall(self, *kind, *key, *input, u)?,
-            WOp::SpawnSys(k, key) => crate::sysfam::model_spawn_sys(self, *k, *key)?,
-            WOp::KillSys(k) => crate::sysfam::model_kill_sys(self, *k)?,
+            WOp::Syscall(kind, key, input) => self.sys_call(*kind, *key, *input, false, u)?,
+            WOp::SpawnSys(k, key) => { let k = *k as usize % 4; if self.sys.spawned[k].is_none() { self.sys.spawned[k] = Some((*key % crate::sysfam::NKEYS, true)); } }
+            WOp::KillSys(k) => { if let Some(s) = self.sys.spawned[*k as usize % 4].as_mut() { s.1 = false; } }
         }
         Ok(())
     }
@@ -1951,6 +1957,97 @@ impl<'a> Checker<'a>
         Ok(())
     }
 
+    /// One call through the syscall family (C17): keyed persistent state, effects applied before the call returns,
+    /// errors for missing / running spawned systems.
+    fn sys_call(&mut self, kind: SysKind, key: u8, value: u32, cmd: bool, u: u32) -> Res<()>
+    {
+        use crate::sysfam::{pack, state_id, NKEYS};
+        self.stats.sys_calls += 1;
+        let state = state_id(kind, key, cmd);
+        let mut fkey = key % NKEYS;
+        let mut runs = true;
+        let mut persist = true;
+        match kind
+        {
+            SysKind::Plain | SysKind::Validated => {}
+            SysKind::Once => { persist = false; }
+            SysKind::Named(_) => { if cmd { return Ok(()); } self.sys.named.insert(state); }
+            SysKind::NamedDirect(_) => { if cmd { return Ok(()); } if !self.sys.named.contains(&state) || self.sys.running.contains(&state) { runs = false; } }
+            SysKind::RegisterNamed(_) =>
+            {
+                if cmd { return Ok(()); }
+                if self.sys.running.contains(&state) { return bail("a named system was re-registered while it runs (not judged)"); }
+                self.sys.named.insert(state);
+                self.sys.counts.insert(state, 0);
+                runs = false;
+            }
+            SysKind::Spawned =>
+            {
+                let k = key as usize % 4;
+                // slots 0,1 hold systems returning u32 (direct calls), slots 2,3 unit systems (Commands::spawned_syscall)
+                let type_ok = if cmd { k >= 2 } else { k < 2 };
+                match self.sys.spawned[k]
+                {
+                    Some((fk, alive)) if alive && type_ok && !self.sys.running.contains(&state) => { fkey = fk; }
+                    _ => { runs = false; }
+                }
+            }
+        }
+        if runs && persist && self.sys.running.contains(&state) { return bail("same-key recursive syscall: state persistence of the inner call is documented as unsupported (A3)"); }
+        let mut out = None;
+        if runs
+        {
+            let n = if persist { self.sys.counts.get(&state).copied().unwrap_or(0) + 1 } else { 1 };
+            let input = pack(state, value);
+            match self.peek()?.cloned()
+            {
+                Some(Ev::SysBody { key: k2, n: n2, input: i2 }) if k2 == fkey && i2 == input =>
+                {
+                    if n2 != n { fail!(self, "C17", "syscall-state", &["C13"], "call through {kind:?} key {key}: the system's Local shows {n2}, expected {n} (state must persist per key and be independent between keys)"); }
+                    self.advance()?;
+                }
+                other => fail!(self, "C17", "syscall-not-run", &[], "call through {kind:?} key {key} value {value}: expected the callee to run, observed {other:?}"),
+            }
+            self.sys.call_seq += 1;
+            let seq = self.sys.call_seq;
+            self.sys.running.push(state);
+            let saved = self.sender;
+            self.sender = (CALLEE_BASE + state, seq);
+            let prog: &'a Program = self.prog;
+            let script: &'a [Op] = prog.callee_script(fkey, n);
+            let (issued, _) = self.issue_script(script, CALLEE_BASE + state, seq, false)?;
+            match self.peek()?
+            {
+                Some(Ev::SysBodyEnd { key: k2, n: n2 }) if *k2 == fkey && *n2 == n => self.advance()?,
+                _ => { self.unexpected("end of the callee body")?; }
+            }
+            // everything the callee queued is applied before the call returns
+            self.apply_issued(issued)?;
+            self.sender = saved;
+            self.sys.running.retain(|s| *s != state);
+            if persist { self.sys.counts.insert(state, n); }
+            out = Some((value & 0xFFFF) * 1000 + n);
+        }
+        else if matches!(kind, SysKind::RegisterNamed(_)) { out = Some(0); }
+        else if let Some(Ev::SysBody { .. }) = self.peek()?
+        {
+            fail!(self, "C17", "spawned-error-contract", &[], "call through {kind:?} key {key} must fail without running anything (missing, despawned or currently running system), but a callee ran");
+        }
+        if !cmd
+        {
+            match self.peek()?.cloned()
+            {
+                Some(Ev::SysRet { uid, out: o2 }) if uid == u =>
+                {
+                    if o2 != out { fail!(self, "C17", "syscall-return", &[], "call through {kind:?} key {key} value {value} returned {o2:?}, expected {out:?}"); }
+                    self.advance()?;
+                }
+                other => fail!(self, "C17", "syscall-effects-late", &["C09"], "call through {kind:?} key {key}: expected the call to return now (all queued commands applied), observed {other:?}"),
+            }
+        }
+        Ok(())
+    }
+
     fn is_descendant_of_signal(&self, e: EntId) -> bool
     {
         let mut cur = self.ents[e].parent;
@@ -1967,6 +2064,22 @@ impl<'a> Checker<'a>
 
 }
 
-pub(crate) use fail;
 pub(crate) type MRes<T> = Res<T>;
 pub(crate) fn bail<T>(s: &str) -> Res<T> { Err(Stop::Bail(Bail(s.into()))) }
+
+/// Reference state of the syscall family.
+#[derive(Default)]
+pub struct SysModel
+{
+    counts: HashMap<u8, u32>,
+    named: std::collections::HashSet<u8>,
+    running: Vec<u8>,
+    /// (function key, alive)
+    spawned: [Option<(u8, bool)>; 4],
+    call_seq: u32,
+}
+impl SysModel
+{
+    pub fn extra_entities_lo(&self) -> i64 { 0 }
+    pub fn extra_entities_hi(&self) -> i64 { 0 }
+}
